@@ -8,10 +8,18 @@ from vlib import SPEC, VERIF
 from checks import c10
 
 D = SPEC / "LogBridge"
-RTARGETS = ["a", "a::b", "ab", "b", "skip", "skip::x", "skipper"]
+RTARGETS = ["a", "a::b", "ab", "b", "skip", "skip::x", "skipper", "my-app", "my-app::db", "my_app::db"]
 PREFIXES = ["", "a", "a::b", "skip"]
-IGNORES = [[], ["skip"], ["skip", "a::b"], ["a"], ["skip::x", "skip"], ["a::b", "a"]]   # order of registration included
+IGNORES = [[], ["skip"], ["skip", "a::b"], ["a"], ["skip::x", "skip"], ["a::b", "a"], ["my-app"], ["my-app", "skip"]]   # order of registration included
 MSGS = ["plain", "", "with \"quotes\" and \\ back", "é 日本 \U0001F600", "multi\nline", "x" * 200, "{} {:?} braces", "tab\there"]
+
+
+FIELD_X = [{"name": "x", "alt": "x", "kind": "value", "ty": "u32", "slot": -1, "pre": False}]
+NOMSG = {"present": False, "text": "", "args": []}
+# what the specification expects of the two attributed functions of the driver: spans like any other
+INSTR = [{"op": "instr", "which": "sync", "decl": {"kind": "span", "level": 3, "target": "logbridge", "name": "inst_sync", "fields": FIELD_X, "record": [], "message": NOMSG}}]
+# (an attributed `async fn` does not instrument its future when the span is disabled, so with no collector it logs creation and close only,
+#  and under log-always the finished future is entered once more when dropped: not used as an oracle)
 
 
 def hx(s):
@@ -20,6 +28,7 @@ def hx(s):
 
 def site_step(rng, sites, sid):
     c = c10.make_case(rng, sites[sid], "accept")
+    c["decl"]["guard2"] = True      # Ctx::span_made also runs the entered() / exit() path on a clone
     return {"op": "site", "cs": sid, "slots": c["slots"], "decl": c["decl"]}
 
 
@@ -42,6 +51,8 @@ def gen_t2l(rng, sites, ids):
                 steps.append({"op": "global"})
         if rng.random() < 0.15:
             steps.append({"op": "construct"})      # a Dispatch that is built but never installed
+        if rng.random() < 0.2:
+            steps.append(rng.choice(INSTR))         # a call of an #[instrument]ed function
         steps.append(site_step(rng, sites, rng.choice(ids)))
     while scoped > 0:
         scoped -= 1
